@@ -42,7 +42,7 @@ func (g G) World(o WorldOpts) m.WorldM {
 			b := g.Body(0, so, false)
 			p.Schema = &b
 		}
-		p.Funcs = g.Funcs(so.Wide)
+		p.Funcs = g.Funcs(so.Wide, so.Huge)
 		vp := o.Validators
 		if vp == 0 {
 			vp = 70
